@@ -17,9 +17,11 @@ import c20_lang as L
 import c20_oracle as O
 import lib
 
-COQ_TARGETS = ["theories/Proofs/FutureLemmas.vo", "theories/Model/FutureEq.vo"]
+COQ_TARGETS = ["theories/Proofs/FutureLemmas.vo", "theories/Model/FutureEq.vo", "theories/Proofs/FutureEqLemmas.vo"]
+ALT_UNIONS = ["Union", "t.Union"]          # other values of the union= argument, tied on a sample
 THEOREMS = ["C20_table_wf", "C20_table_documented", "C20_table_sound", "C20_meaning", "C20_no_pep604",
-            "C20_fixpoint", "C20_identity", "C20_total", "C20_refuted_arith_operand", "C20_refuted_left_spine"]
+            "C20_fixpoint", "C20_identity", "C20_total", "C20_any_union_name", "C20_refuted_arith_operand",
+            "C20_refuted_left_spine"]
 
 
 # ----------------------------------------------------------------------------------
@@ -77,8 +79,15 @@ def prove(run: lib.Run):
     if text is None:
         return
     ok = run.compile_dyn("GenFutureGenerics.v", text=text)
-    if ok:
-        run.compile_dyn("C20.v", src=os.path.join(lib.DYN, "C20", "C20.v"), theorems=THEOREMS)
+    ok = ok and run.compile_dyn("C20.v", src=os.path.join(lib.DYN, "C20", "C20.v"), theorems=THEOREMS)
+    if ok and run.tier == "thorough":
+        rc, out, err = lib.sh(["coqchk", "-silent", "-o", "-Q", lib.THEORIES, "TL", "-Q", run.build, "TLRun", "TLRun.C20"],
+                              timeout=900, cwd=run.build)
+        txt = out + err
+        clean = rc == 0 and "* Axioms: <none>" in txt and "type-in-type: <none>" in txt and \
+            "unsafe (co)fixpoints: <none>" in txt and "positivity is assumed: <none>" in txt
+        run.oblige("coqchk:TLRun.C20 re-checked by the standalone checker, no axioms", clean, txt[-400:] if not clean else "")
+        run.checker_cmds.append("coqchk -silent -o -Q coq/theories TL -Q build/C20/thorough TLRun TLRun.C20")
     run.assumptions += [
         "C20: ast.parse / ast.unparse are the interpreter's; the model starts from the parsed tree and `reparse` "
         "(Name with a dotted id reads back as an Attribute chain, nothing else changes) is tied by the correspondence",
@@ -200,6 +209,31 @@ def correspond(run: lib.Run):
                        "].\nEval vm_compute in mismatches (future_case_strict generics union_name) cases.\n"
                        "Eval vm_compute in mismatches (future_case_ok generics union_name) cases.\n")
         index[name] = part
+    # the union= argument (and the cache keyed on it): the same strings under other union names
+    alt_cases = []
+    for k, alt in enumerate(ALT_UNIONS):
+        part = []
+        for s, is_ann in inputs[:run.budget(300, 1500)]:
+            desc = {"input": s, "annotation": is_ann, "union": alt}
+            try:
+                tree = ast.parse(s, mode="eval")
+                t = future.transform(s, union=alt)
+                desc["output"] = t
+                ttree = ast.parse(t, mode="eval")
+            except Exception as e:   # noqa: BLE001
+                desc["error"] = repr(e)
+                alt_cases.append(desc)
+                continue
+            part.append((len(cases) + len(alt_cases), "(%s,\n   %s, %s)" % (L.to_coq(tree), L.to_coq(ttree), lib.coq_bool(is_ann))))
+            alt_cases.append(desc)
+        for j in range(0, len(part), shard):
+            name = "cases_future_union%d_%03d.v" % (k, j // shard)
+            files[name] = (HDR + "Definition cases : list future_case :=\n [" + ";\n  ".join(c for _, c in part[j:j + shard]) +
+                           "].\nEval vm_compute in mismatches (future_case_strict generics %s) cases.\n"
+                           "Eval vm_compute in mismatches (future_case_ok generics %s) cases.\n" % (L.cstr(alt), L.cstr(alt)))
+            index[name] = [i for i, _ in part[j:j + shard]]
+    bad += [len(cases) + i for i, d in enumerate(alt_cases) if "error" in d]
+    cases += alt_cases
     res = run.coq_eval_many(files, timeout=900)
     strict = []
     for name, r in res.items():
@@ -215,6 +249,7 @@ def correspond(run: lib.Run):
         run.notes.append("C20: the exact tree predicted by the model differs from the implementation on %d inputs with "
                          "arithmetic operators (only totality and identity are demanded and compared there); the "
                          "_refuted_ witnesses may no longer describe the code; first: %r" % (len(drift), cases[drift[0]]))
+    dist.update({"other_union_names": {a: sum(1 for c in alt_cases if c["union"] == a) for a in ALT_UNIONS}})
     dist.update({"ast_depth": dict(sorted(ndepth.items())), "annotation": sum(1 for _, a in inputs if a),
                  "non_annotation": sum(1 for _, a in inputs if not a), "output_differs_from_input": changed,
                  "exact_tree_disagreements_outside_guard": len(drift),
@@ -243,7 +278,11 @@ def _own_findings():
 def shrink(s: str, annotation: bool, clause: str) -> str:
     """structural shrinking on the source text: replace sub-expressions by `int` / hoist children while the
     same clause still fails"""
+    typed = annotation and O.evaluates_to_type(s)
+
     def fails(x):
+        if typed and not O.evaluates_to_type(x):      # stay inside the statement's domain while shrinking
+            return False
         return any(f["clause"] == clause for f in O.check_string(x, annotation))
 
     cur = s
@@ -350,7 +389,25 @@ def search(run: lib.Run, broken):
     }
     if rest:
         run.samples.append({"oracle_failure": rest[0]})
+    # the witnesses of the _refuted_ theorems, replayed on the implementation (outside the quantifier: arithmetic)
+    run.extra_cov["refuted_witness_replays"] = refuted_replays()
     return rest
+
+
+def refuted_replays():
+    from typelib.py import future
+    out = {}
+    try:
+        t = future.transform("(a | b) + c")
+        out["C20_refuted_arith_operand"] = {"input": "(a | b) + c", "output": t,
+                                            "reproduces": O.scan(ast.parse(t, mode="eval"))[0] > 0}
+        t = future.transform("a + b | c")
+        out["C20_refuted_left_spine"] = {"input": "a + b | c", "output": t,
+                                         "reproduces": ast.dump(ast.parse(t, mode="eval")) ==
+                                         ast.dump(ast.parse("typing.Union[a, b, c]", mode="eval"))}
+    except Exception as e:   # noqa: BLE001
+        out["error"] = repr(e)
+    return out
 
 
 # ----------------------------------------------------------------------------------
